@@ -164,7 +164,7 @@ def format_code(
     keep_imports: bool = False,
     max_line_length: int = core.parse_line_length_from_pyproject_toml(),
 ) -> str:
-    if re.findall(r"# pyrefact: skip_file", source):
+    if re.search(r"#\s*pyrefact\s*:\s*skip_file", source):
         return source
 
     source = source.expandtabs(4)
